@@ -555,6 +555,21 @@ class C05(ServerProp):
                         probe = rq("rrq", b"f", (("blksize", 16),))
                         lines.append("storm %s %s srv/f=gen:40:9 %s %s" % (self.root(i), flags, probe.hex(), rq(kind, b"f" if kind == "rrq" else b"up", ((nm, v),)).hex()))
                         i += 1
+        # directed: "from any number of sources" - a long run of accepted requests, each from its own endpoint (per-client state of
+        # the listener - the single-port routing table - grows with every one of them), then the probe from yet another endpoint
+        for flags in ["sm", "m", "smr"]:
+            for (cnt, mix) in ([(150, False)] if tier == "quick" else [(150, False), (400, True), (1200, False)]):
+                batch = []
+                for j in range(cnt):
+                    if mix and j % 3 == 1 and "r" not in flags:
+                        batch.append(rq("wrq", b"up%d" % (j % 7), ()))
+                    elif mix and j % 3 == 2:
+                        batch.append(rq("rrq", b"f", (("blksize", rng.choice([8, 512, 1024, 65464])),)))
+                    else:
+                        batch.append(rq("rrq", b"f", ()))
+                probe = rq("rrq", b"f", (("blksize", 16),))
+                lines.append("storm %s %s srv/f=gen:40:9 %s %s" % (self.root(i), flags, probe.hex(), " ".join(hx(b) for b in batch)))
+                i += 1
         return lines
 
     def nontrivial(self, line, impl):
@@ -563,7 +578,7 @@ class C05(ServerProp):
     def classify(self, line, impl, res):
         t = line.split(" ")
         res.count("flags:" + t[2])
-        res.count("batch:%d" % min(len(t) - 5, 12))
+        res.count("batch:%s" % (min(len(t) - 5, 12) if len(t) - 5 <= 12 else ">=100-distinct-sources"))
         for h in t[5:]:
             d = rfc.unhx(h)
             res.count("dgram:" + ("rq" if len(d) > 1 and d[0] == 0 and d[1] in (1, 2) else "other"))
@@ -589,6 +604,10 @@ class C05(ServerProp):
 
     def shrink(self, line):
         t = line.split(" ")
+        if "m" in t[2]:
+            # many-sources batches are about state the listener accumulates: candidates run against one server per harness
+            # process would inherit it, so the batch is reported as it is (it replays from a fresh harness)
+            return []
         return [" ".join(t[:i] + t[i + 1:]) for i in range(5, len(t))] if len(t) > 6 else []
 
 
